@@ -80,7 +80,7 @@ impl Vm {
     ) -> ParseResult<Box<ParserState<'a, &'a str>>> {
         if let Some(ref listener) = self.listener {
             if listener(rule.to_owned(), state.position()) {
-                return Err(ParserState::new(state.position().line_of()));
+                return Err(state);
             }
         }
         // A grammar may define its own rule under the name of a non-keyword built-in
